@@ -162,11 +162,16 @@ def scenario_t(position, duration, after):
   def fn(sched):
     log = []
 
-    @h.PhaseOptions(timeout_s=TIMEOUT)
+    topts = {'timeout_s': TIMEOUT}
+    if after == 'repeat2':
+      topts.update(repeat_on_timeout=True, repeat_limit=2)      # times out on every attempt: still a TIMEOUT run
+
+    @h.PhaseOptions(**topts)
     @h.measures(h.Measurement('m'))
     def timed(test):
       t0 = time.monotonic()
-      log.append(('timed-start', t0))
+      if not any(e[0] == 'timed-start' for e in log):
+        log.append(('timed-start', t0))
       if duration == 'never':
         while True:
           time.sleep(50.0)
@@ -351,7 +356,8 @@ def check_t(cfg):
       # interval (3 s), plus what the explored clock deviations themselves add (each at most SLACK)
       later = [t for name, t in v['log'] if name not in ('first', 'timed-start') and t >= t0]
       nxt = min(later) if later else v['t_end']
-      allowance = T + 3.0 + runtime.SLACK * ex.result.get('timer_deviations', 0) + 1e-6
+      attempts = 2 if after == 'repeat2' else 1
+      allowance = attempts * (T + 3.0) + runtime.SLACK * ex.result.get('timer_deviations', 0) + 1e-6
       if nxt - t0 > allowance:
         out.append(('T:%s:late' % tag, 'executor proceeded %.1fs after the phase started (timeout %.1fs, allowance %.1fs)'
                     % (nxt - t0, T, allowance), rep))
@@ -371,7 +377,7 @@ def t_configs(tier):
   for pos in ('plain', 'main', 'teardown'):
     cfgs += [(pos, 9.5, 'none'), (pos, 'never', 'none')]
   cfgs += [('plain', 9.999, 'fail'), ('plain', 25.0, 'measure'), ('main', 25.0, 'measure'), ('plain', 9.5, 'raise'), ('main', 9.5, 'raise'),
-           ('monitored', 'never', 'none')]
+           ('monitored', 'never', 'none'), ('main', 'never', 'repeat2')]
   if tier == 'thorough':
     cfgs += [('plain', 10.5, 'measure'), ('teardown', 25.0, 'fail'), ('main', 9.999, 'measure')]
   return cfgs
